@@ -121,10 +121,13 @@ def opParseRange (a : List String) : String :=
   | .err => "err"
   | .panic => "panic"
 
+/-- `FromIterator<(CardPair, f32)>` as repaired (D11): `if p == 0.0 { 0.0 } else { p }` -/
+def normNegZero (w : UInt32) : UInt32 := if w == 0x80000000 then 0 else w
+
 def listedEntries : List String → List (Combo × UInt32)
   | c :: w :: rest =>
     let p := Combo.ofCode c.toNat!
-    (mkPair p.fst p.snd, w.toNat!.toUInt32) :: listedEntries rest
+    (mkPair p.fst p.snd, normNegZero w.toNat!.toUInt32) :: listedEntries rest
   | _ => []
 
 def opRangeOps (a : List String) : String :=
@@ -207,7 +210,6 @@ def specOrphText (orph : List ((Nat × Nat) × UInt32)) : String :=
 def specRangeOps (a : List String) : Option String :=
   let es := listedEntries (a.drop 1)
   let proper := es.all fun e => !entryBad e && Card.lt e.1.fst e.1.snd && e.1.fst.valid && e.1.snd.valid
-    && e.2 != 0x80000000
   if !proper then some "all:[C09]nopanic" else
   let m := specContents es
   let rp := Spec.rankPairView f32Eq m
